@@ -29,7 +29,7 @@ fn main() {
         pos += he + 4;
         let no_body = k.0 == "HEAD" || k.1 == 204 || k.1 == 304 || k.1 < 200;
         if no_body { continue; }
-        if head.contains("transfer-encoding: chunked") {
+        if has_header_token(&head, "transfer-encoding", "chunked") {
             loop {
                 let r = &out[pos..];
                 let le = match r.windows(2).position(|w| w == b"\r\n") { Some(p) => p, None => { bad = Some(format!("response {}: chunk size line missing", i)); break } };
@@ -40,7 +40,7 @@ fn main() {
                 if n == 0 { break; }
             }
             if bad.is_some() { break; }
-        } else if let Some(l) = head.lines().find_map(|l| l.strip_prefix("content-length:").map(|v| v.trim().parse::<usize>().unwrap_or(usize::MAX))) {
+        } else if let Some(l) = header_values(&head, "content-length").first().map(|v| v.parse::<usize>().unwrap_or(usize::MAX)) {
             pos += l;
         } else { bad = Some(format!("response {}: neither chunked nor content-length on a persistent connection", i)); break; }
     }
